@@ -18,19 +18,19 @@ for hb in $(find $D -name midicat -type f 2>/dev/null); do chmod +x $hb; export 
 rundemo() {
   if [ ! -f $D/go.mod ]; then
     # test file meant to live inside a package of the module (C19): copy it next to the decoder package
-    cp $D/*_test.go $W/v2/drivers/midicat/ && (cd $W/v2 && go test -count=1 ./drivers/midicat/ >/tmp/seedeval/demo.out 2>&1); rc=$?; rm -f $W/v2/drivers/midicat/c19*_demo_test.go; echo $rc; return
+    cp $D/*_test.go $W/v2/drivers/midicat/ && (cd $W/v2 && go test -count=1 ./drivers/midicat/ >/tmp/seedeval/demo-$ID-$V.out 2>&1); rc=$?; rm -f $W/v2/drivers/midicat/c19*_demo_test.go; echo $rc; return
   fi
-  if ls $D/*_test.go >/dev/null 2>&1; then (cd $D && go test $RACE -count=1 ./... >/tmp/seedeval/demo.out 2>&1); else (cd $D && go run . >/tmp/seedeval/demo.out 2>&1); fi; echo $?; }
+  if ls $D/*_test.go >/dev/null 2>&1; then (cd $D && go test $RACE -count=1 ./... >/tmp/seedeval/demo-$ID-$V.out 2>&1); else (cd $D && go run . >/tmp/seedeval/demo-$ID-$V.out 2>&1); fi; echo $?; }
 clean_rc=$(rundemo)
 git -C "$W" apply "$SRC/patch.diff" || { echo "{\"id\":\"$ID-$V\",\"error\":\"patch does not apply\"}"; git -C /repo worktree remove --force "$W"; exit 3; }
 build=$(cd $W/v2 && go build $(go list ./... | grep -v -e rtmididrv -e portmididrv) 2>&1 | head -3)
 base=$(/verif/tools/baseline.sh $W | head -1)
 mut_rc=$(rundemo)
-tail -3 /tmp/seedeval/demo.out > /tmp/seedeval/demo.tail
+tail -3 /tmp/seedeval/demo-$ID-$V.out > /tmp/seedeval/demo-$ID-$V.tail
 mkdir -p /tmp/seedeval/verif-$ID-$V; cp /verif/known_findings.json /tmp/seedeval/verif-$ID-$V/
 caught=""
 for c in C01 C02 C03 C04 C05 C06 C07 C08 C09 C10 C11 C12 C13 C14 C15 C16 C17 C18 C19 C20; do
-  out=$(/verif/bin/midiverif check $c --repo $W --verif /tmp/seedeval/verif-$ID-$V 2>&1); r=$?
+  out=$(${MIDIVERIF:-/verif/bin/midiverif} check $c --repo $W --verif /tmp/seedeval/verif-$ID-$V 2>&1); r=$?
   if [ $r -ne 0 ]; then rule=$(echo "$out" | grep -m1 -E "^  C[0-9]+\.[0-9]+" | cut -c1-220); caught="$caught$c: $rule\n"; fi
 done
 git -C /repo worktree remove --force "$W"; rm -rf /tmp/seedeval/verif-$ID-$V
